@@ -1100,7 +1100,8 @@ def s_instance(ctx, drv, I, case):
     ctx.dist[f"instance.patch_index_repeats={repeats}"] += 1
     obj = iarr(rng, (1, H, W)) + 1j * iarr(rng, (1, H, W))
     pw = iarr(rng, idx.shape) + 1j * iarr(rng, idx.shape)
-    g = p.obj_model._get_obj_patches(T(I, obj, torch.complex128), idx_t).numpy()
+    gp = getattr(p.obj_model, "_get_obj_patches", None)      # bound private helper; definitional gather (flagged) if the name is gone
+    g = (gp(T(I, obj, torch.complex128), idx_t) if callable(gp) else get_patches(I, ctx, T(I, obj, torch.complex128), idx_t)).numpy()
     sc_ = I.pu.sum_patches(T(I, pw, torch.complex128), idx_t, (H, W)).numpy()
     idxl = idx.reshape(-1).tolist()
     for part in (np.real, np.imag):
